@@ -779,17 +779,15 @@ class DirectoryRecord:
         # see if the child to be added is a duplicate with the entry that
         # bisect_left returned.
         index = bisect.bisect_left(self.children, child)
+        is_duplicate = False
         if index != len(self.children) and self.children[index].file_ident == child.file_ident:
             if not self.children[index].is_associated_file() and not child.is_associated_file():
                 if not (self.rock_ridge is not None and self.file_identifier() == b'RR_MOVED'):
                     if not allow_duplicate:
                         raise pycdlibexception.PyCdlibInvalidInput('Failed adding duplicate name to parent')
+                    is_duplicate = True
 
-                    self.children[index].data_continuation = child
-                    self.children[index].file_flags |= (1 << self.FILE_FLAG_MULTI_EXTENT_BIT)
-                    index += 1
-        self.children.insert(index, child)
-
+        rr_index = -1
         if child.rock_ridge is not None and not child.is_dot() and not child.is_dotdot():
             lo = 0
             hi = len(self.rr_children)
@@ -804,7 +802,24 @@ class DirectoryRecord:
                 else:
                     raise pycdlibexception.PyCdlibInternalError('Expected all children to have Rock Ridge, but one did not')
             rr_index = lo
+            # Only refuse a duplicate Rock Ridge name for a new entry; when
+            # parsing (check_overflow is False) we take what is on the disc.
+            # Relocated directories collected in RR_MOVED keep the names they
+            # have in their real parents, so they may legitimately collide.
+            in_rr_moved = self.rock_ridge is not None and self.file_identifier() == b'RR_MOVED'
+            if check_overflow and not allow_duplicate and not in_rr_moved and rr_index > 0:
+                # Entries with an equal name sort before the insertion point.
+                rr = self.rr_children[rr_index - 1].rock_ridge
+                if rr is not None and rr.name() == child.rock_ridge.name():
+                    raise pycdlibexception.PyCdlibInvalidInput('Failed adding duplicate Rock Ridge name to parent')
 
+        if is_duplicate:
+            self.children[index].data_continuation = child
+            self.children[index].file_flags |= (1 << self.FILE_FLAG_MULTI_EXTENT_BIT)
+            index += 1
+        self.children.insert(index, child)
+
+        if rr_index >= 0:
             self.rr_children.insert(rr_index, child)
 
         # We now have to check if we need to add another logical block.
